@@ -1234,3 +1234,169 @@ Proof.
       rewrite (wb_last_not_node Wt _ k Kt) by (rewrite Hk; auto).
       rewrite (wb_last_not_node Wh _ k Kh) by (rewrite Hk; auto). reflexivity.
 Qed.
+
+(* ---------- operations shared with the plain format ---------- *)
+
+Lemma RnG_cache_empty : forall g cn nd n, RnG g cn nd n -> RnG g cnode_empty nd n.
+Proof.
+  intros g cn nd n [G1 G2 G3 G4 G5 G6 G7 G8 G9 G10 G11]. constructor; auto; cbn; intros; discriminate.
+Qed.
+
+Lemma BC_nocache : forall g cb nd n, BC g cb nd n -> BC g None nd n.
+Proof. intros g cb nd n [B1 B2 B3 B4 B5]. constructor; auto. intros lb X. discriminate. Qed.
+
+Lemma BC_same_log : forall g cb nd nd' n, BC g cb nd n ->
+  n_marker nd' = n_marker nd -> n_mterm nd' = n_mterm nd -> n_ents nd' = n_ents nd -> BC g cb nd' n.
+Proof.
+  intros g cb nd nd' n [B1 B2 B3 B4 B5] E1 E2 E3.
+  assert (n_last nd' = n_last nd) as EL by (unfold n_last; now rewrite E1, E3).
+  assert (hterm nd' = hterm nd) as EH by (unfold hterm, n_last_term; now rewrite E2, E3).
+  assert (forall x, in_log nd' x = in_log nd x) as EI by (intros; unfold in_log; now rewrite E1, EL).
+  constructor; rewrite ?E1, ?E2, ?E3; auto.
+  - intros b raw X. destruct (B3 b raw X) as (R1 & R2 & R3 & R4). rewrite EH.
+    split; [exact R1|]. split; [exact R2|]. split; [exact R3|].
+    rewrite (filter_ext _ _ EI). exact R4.
+Qed.
+
+Lemma reopen_RB : forall d s, RB d s -> RB (p_reopen d) s.
+Proof.
+  intros d s (HS & HW & H). split; [exact HS | split; [exact HW|]]. intros n. cbn [p_reopen p_kv p_cache].
+  destruct (H n) as [A B C]. constructor; [eapply RnG_cache_empty; eauto | eapply BC_nocache; eauto | exact C].
+Qed.
+
+(* what SaveSnapshots touches *)
+Lemma save_snapshots_frame : forall d n ss d', sorted (p_kv d) ->
+  p_save_snapshots d [mk_snap_update n ss] = Some d' ->
+  (forall k, k_tag k <> c09_tag_snapshot -> kv_get (p_kv d') k = kv_get (p_kv d) k) /\
+  (forall n', c_batch (p_cache d' n') = c_batch (p_cache d n')).
+Proof.
+  intros d n ss d' HS H. unfold p_save_snapshots in H. cbn [save_snapshots_wb mk_snap_update u_ss u_node] in H.
+  destruct (ss_emptyb ss) eqn:E.
+  { inversion H. cbn. auto. }
+  assert (HC : forall c1 ok, cs_try_save_snapshot (p_cache d) n (ss_index ss) = (c1, ok) ->
+            forall n', c_batch (c1 n') = c_batch (p_cache d n')).
+  { intros c1 ok X n'. unfold cs_try_save_snapshot in X. destruct (c_snap (p_cache d n)).
+    - inversion X. reflexivity.
+    - inversion X. unfold cupd. destruct (nid_eqb n' n) eqn:EN; [|reflexivity].
+      apply nid_eqb_eq in EN. now subst. }
+  destruct (cs_try_save_snapshot (p_cache d) n (ss_index ss)) as [c1 ok] eqn:ET.
+  specialize (HC c1 ok eq_refl). destruct ok.
+  - unfold save_snapshot_wb in H. rewrite E in H. destruct (list_snapshots (p_kv d) n) as [l|]; [|discriminate].
+    inversion H. cbn [p_kv p_cache]. split; [|exact HC].
+    intros k Hk. rewrite get_commit by auto. rewrite wb_last_none; [reflexivity|].
+    intros o HI X. apply Hk. rewrite <- X. rewrite app_nil_r in HI. apply in_app_or in HI.
+    destruct HI as [HI|[<-|[]]]; [|reflexivity].
+    apply in_map_iff in HI. destruct HI as (x & <- & _). reflexivity.
+  - inversion H. cbn. auto.
+Qed.
+
+Lemma spec_step_snap_strip : forall s n ss n',
+  spec_step (sstrip s) (OSnap n ss) n' = sstrip (spec_step s (OSnap n ss)) n'.
+Proof.
+  intros. cbn [spec_step]. unfold sstrip at 1 2. 
+  change (n_ssidx (strip (s n))) with (n_ssidx (s n)).
+  destruct (n_ssidx (s n) <? ss_index ss); [|reflexivity].
+  unfold sstrip, supd. destruct (nid_eqb n' n); reflexivity.
+Qed.
+
+Lemma save_snapshots_RB : forall d s n ss, RB d s -> spec_wf_op s (OSnap n ss) = true ->
+  exists d', batched_step d (OSnap n ss) = Some d' /\ RB d' (spec_step s (OSnap n ss)).
+Proof.
+  intros d s n ss HRB Hwf. pose proof (RB_R _ _ HRB) as HR. destruct HRB as (HS & HW & H).
+  assert (Hwf' : spec_wf_op (sstrip s) (OSnap n ss) = true).
+  { cbn [spec_wf_op] in *. unfold sstrip. rewrite n_last_strip. exact Hwf. }
+  destruct (save_snapshots_R d (sstrip s) n ss HR Hwf') as (d' & E & (HS' & HW' & HR')).
+  exists d'. split; [exact E|]. cbn [plain_step] in E.
+  destruct (save_snapshots_frame d n ss d' HS E) as [F1 F2].
+  split; [exact HS' | split; [exact HW'|]]. intros n'.
+  destruct (H n') as [A B C]. constructor.
+  - apply Rn_G. change (strip (spec_step s (OSnap n ss) n')) with (sstrip (spec_step s (OSnap n ss)) n').
+    rewrite <- spec_step_snap_strip. apply HR'.
+  - rewrite F2. eapply BC_ext.
+    + eapply (BC_same_log _ _ (s n')); eauto; cbn [spec_step];
+        destruct (n_ssidx (s n) <? ss_index ss); try reflexivity;
+        unfold supd; destruct (nid_eqb n' n) eqn:EN; try reflexivity;
+        apply nid_eqb_eq in EN; subst; reflexivity.
+    + intros b. apply F1. cbn. ktags. discriminate.
+  - cbn [spec_step]. destruct (n_ssidx (s n) <? ss_index ss); [|exact C].
+    unfold supd. destruct (nid_eqb n' n) eqn:EN; [|exact C]. apply nid_eqb_eq in EN. subst. exact (rb_contig _ _ _ _ (H n)).
+Qed.
+
+Lemma BC_reset : forall g cb nd n mk tm st ss, BC g cb nd n -> n_last_term nd <= tm ->
+  BC g None (mkNode mk tm [] st ss) n.
+Proof.
+  intros g cb nd n mk tm st ss [B1 B2 B3 B4 B5] Ht.
+  set (nd' := mkNode mk tm [] st ss).
+  assert (HL' : n_last nd' = mk) by (unfold n_last, nlen, nd'; cbn [n_marker n_ents length]; lia).
+  assert (HT' : hterm nd <= hterm nd') by (unfold hterm, n_last_term, nd'; cbn [n_mterm n_ents last_term]; fold (n_last_term nd); lia).
+  constructor.
+  - exact I.
+  - exact B2.
+  - intros b raw X. destruct (B3 b raw X) as (R1 & R2 & R3 & R4). split; [exact R1|]. split; [exact R2|]. split.
+    + intros x HI. destruct (R3 x HI) as (A1 & A2 & A3). split; [exact A1|]. split; [lia | exact A3].
+    + cbn [n_ents nd']. unfold bfilter. cbn [filter]. apply filter_nil. intros x HI.
+      unfold in_log. rewrite HL'. cbn [n_marker nd'].
+      destruct (mk <? e_index x) eqn:X1; [|reflexivity]. apply N.ltb_lt in X1.
+      cbn [andb]. apply N.leb_gt. lia.
+  - intros e [].
+  - intros lb X. discriminate.
+Qed.
+
+Lemma remove_node_wb_no_batch : forall n l, no_batch_keys (remove_node_wb n l).
+Proof.
+  intros n l o HI. unfold remove_node_wb in HI. apply in_app_or in HI. destruct HI as [HI|HI].
+  - destruct HI as [<-|[<-|[<-|[]]]]; cbn; ktags; discriminate.
+  - apply in_map_iff in HI. destruct HI as (x & <- & _). cbn. ktags. discriminate.
+Qed.
+
+Lemma import_frame : forall d n ss d', sorted (p_kv d) ->
+  p_import_snapshot d n ss = Some d' ->
+  forall n' b, kv_get (p_kv d') (KBatch n' b) = kv_get (p_kv d) (KBatch n' b).
+Proof.
+  intros d n ss d' HS H n' b. unfold p_import_snapshot in H.
+  destruct (list_snapshots (p_kv d) n) as [l|]; [|discriminate].
+  destruct (save_snapshot_wb (p_kv d) n ss) as [w2|] eqn:E2; [|discriminate].
+  set (W := (remove_node_wb n _ ++ _) ++ w2 ++ _) in H.
+  assert (Hd : d' = mkDB (kv_commit (p_kv d) W) (p_cache d)) by congruence.
+  rewrite Hd. cbn [p_kv]. rewrite (get_commit _ _ _ HS). rewrite wb_last_none; [reflexivity|].
+  intros o HI X. unfold W in HI.
+  assert (k_tag (wkey o) <> c09_tag_entry_batch) as HT; [|apply HT; rewrite X; reflexivity].
+  apply in_app_or in HI. destruct HI as [HI|HI].
+  - apply in_app_or in HI. destruct HI as [HI|HI].
+    + now apply (remove_node_wb_no_batch n _ o).
+    + destruct HI as [<-|[<-|[]]]; cbn; ktags; discriminate.
+  - apply in_app_or in HI. destruct HI as [HI|[<-|[]]]; [|cbn; ktags; discriminate].
+    unfold save_snapshot_wb in E2. destruct (ss_emptyb ss).
+    + inversion E2; subst. destruct HI.
+    + destruct (list_snapshots (p_kv d) n); [|discriminate]. inversion E2; subst.
+      apply in_app_or in HI. destruct HI as [HI|[<-|[]]]; [|cbn; ktags; discriminate].
+      apply in_map_iff in HI. destruct HI as (x & <- & _). cbn. ktags. discriminate.
+Qed.
+
+Lemma import_snapshot_RB : forall d s n ss, RB d s -> spec_wf_op s (OImport n ss) = true ->
+  exists d', batched_step d (OImport n ss) = Some d' /\ RB d' (spec_step s (OImport n ss)).
+Proof.
+  intros d s n ss HRB Hwf. pose proof (RB_R _ _ HRB) as HR. destruct HRB as (HS & HW & H).
+  assert (Hwf' : spec_wf_op (sstrip s) (OImport n ss) = true) by exact Hwf.
+  destruct (import_snapshot_R d (sstrip s) n ss HR Hwf') as (d' & E & (HS' & HW' & HR')).
+  exists d'. split; [exact E|].
+  cbn [spec_wf_op] in Hwf. rewrite !andb_true_iff in Hwf. destruct Hwf as ((W1 & W2) & W3). apply N.leb_le in W3.
+  cbn [plain_step] in E. destruct (p_import_snapshot (p_reopen d) n ss) as [d1|] eqn:EI; [|discriminate].
+  inversion E; subst d'. clear E.
+  pose proof (import_frame (p_reopen d) n ss d1 HS EI) as F1. cbn [p_reopen p_kv] in F1.
+  split; [exact HS' | split; [exact HW'|]]. intros n'. cbn [p_reopen p_kv p_cache spec_step] in *.
+  specialize (HR' n'). apply Rn_G in HR'. destruct (H n') as [A B C].
+  destruct (nid_eqb n' n) eqn:EN.
+  - apply nid_eqb_eq in EN. subst n'. rewrite supd_same in *. constructor.
+    + assert (strip (mkNode (ss_index ss) (ss_term ss) [] (Some (mkSt (ss_term ss) 0 (ss_index ss))) (Some ss))
+              = mkNode (ss_index ss) (ss_term ss) [] (Some (mkSt (ss_term ss) 0 (ss_index ss))) (Some ss)) as ->.
+      { unfold strip, n_last, n_last_term, nlen. cbn [n_marker n_ents n_mterm n_st n_ss length last_term]. f_equal. lia. }
+      exact HR'.
+    + eapply BC_ext; [eapply BC_reset; eauto | intros b; apply F1].
+    + exact I.
+  - assert (n' <> n) as HN by (intros ->; rewrite nid_eqb_refl in EN; discriminate).
+    rewrite supd_other in * by auto. constructor.
+    + exact HR'.
+    + eapply BC_ext; [eapply BC_nocache; eauto | intros b; apply F1].
+    + exact C.
+Qed.
